@@ -183,6 +183,12 @@ def scenarios(rng: random.Random, tier: str):
                        nodegen.cea(2001, name, n(), n()) + " | adv 1")
             out.append(base + f" | rerr 0 hard | dial fail,fail | adv {wait} | adv 1 | adv {wait} | adv {wait}")
             out.append(base + " | rx 0 " + nodegen.dpr(n(), n(), name) + f" | eof 0 | adv {wait - 1} | adv 1 | adv {wait}")
+    # a peer that is not persistent connects by itself and is lost (any way): it is never dialled, whatever always_reconnect says
+    for always in (0, 1):
+        for wait in (2, 5):
+            for loss in ("eof 0", "rerr 0 hard", "rx 0 " + nodegen.dpr(n(), n()) + " | eof 0"):
+                out.append(cfg_line(0, always, wait) + " | start ok | acc | rx 1 " + nodegen.cer("peer1.x", "4", n(), n()) + " | " +
+                           loss.replace(" 0", " 1", 1).replace("eof 0", "eof 1") + f" | adv {wait} | adv 1 | adv {wait} | adv {wait}")
     # the connection is lost on a write (hard error from send()): same loss, same redial
     for wait in (2, 5):
         for always in (0, 1):
